@@ -791,6 +791,14 @@ std::string build_conc_case(const std::string &kind_in) {
     lines.push_back("flush");
     if (chance(30)) lines.push_back("crange 0");
   }
+  // setup: table-cache pressure -- many one-key tables and the smallest table cache (64 entries, 4 per shard); a share of the
+  // threads' reads then goes to those keys, so that lookups keep evicting the tables other lookups are reading
+  int ntables = 0;
+  if ((c10 && chance(25)) || (kind == "C08" && chance(5))) {
+    lines[0] += " mof=74";
+    ntables = uni(70, 160);
+    lines.push_back(fmt("tables %d", ntables));
+  }
   // setup: now and then a database that is opened with a level-0 backlog: one large log written under a big write buffer
   // and recovered under a small one (every buffer-full of the log becomes a level-0 table during recovery)
   bool backlog = (c09 && chance(18)) || (!c09 && !c10 && chance(4));
@@ -817,6 +825,19 @@ std::string build_conc_case(const std::string &kind_in) {
     return tok + fmt("+r%d.%d", uni(0, 9999), c09 ? uni(9000, 30000) : uni(3000, 12000));
   };
   // interleave threads' lines randomly (per-thread order is what matters)
+  // "gap" skeleton: the keys of the first and of the last thread each sit in their own table in level 1 and in level 2,
+  // nothing in between; one thread compacts level 1 manually (several input files with a gap between them, as
+  // ldb_compact issues) while a middle thread writes into the gap and flushes.
+  if (T >= 3 && !c04 && chance(12)) {
+    for (int t : {0, T - 1}) for (int round = 0; round < 2; round++) {
+      for (int k = 0; k < nkeys[t]; k++) lines.push_back(fmt("put tT%dk%d tgapT%dk%dr%d", t, k, t, k, round));
+      lines.push_back("flush");
+    }
+    int mid = uni(1, T - 2), comp = chance(50) ? 0 : T - 1;
+    lines.push_back(fmt("thread %d crange 1", comp));
+    for (int k = 0; k < nkeys[mid]; k++) lines.push_back(fmt("thread %d put tT%dk%d ", mid, mid, k) + val(mid));
+    lines.push_back(fmt("thread %d flush", mid));
+  }
   int total = 0;
   std::vector<int> left(T);
   for (int t = 0; t < T; t++) { left[t] = c10 ? uni(10, thorough ? 80 : 40) : uni(2, thorough ? 20 : 8); total += left[t]; }
@@ -827,6 +848,7 @@ std::string build_conc_case(const std::string &kind_in) {
     left[t]--; total--;
     int c = uni(0, 99);
     std::string sync = chance(10) ? " sync=1" : "";
+    if (ntables && chance(55)) { lines.push_back(fmt("thread %d get tm%04d", t, uni(0, ntables - 1))); continue; }
     int wput = c04 ? 20 : 38, wdel = 8, wbatch = (c04 || c20) ? 30 : 12, wget = c04 ? 10 : 20, wsnap = c04 ? 20 : 10, wscan = c04 ? 8 : 4, wflush = c09 ? 8 : 3, wcr = c09 ? 5 : 2, wmisc = c20 ? 14 : 3;
     int tot = wput + wdel + wbatch + wget + wsnap + wscan + wflush + wcr + wmisc;
     c = uni(0, tot - 1);
